@@ -1060,6 +1060,8 @@ def quick_elems():
         elem_desc("D1", "FromField", [f("a")], ["foo"], forward="all", magic=["ident", "ty", "attrs"]),
         elem_desc("D2", "FromAttributes", [f("x", multiple=True), f("y")], ["cfgx"]),
         elem_desc("D3", "FromDeriveInput", [f("only")], ["one"], magic=["ident"]),
+        elem_desc("D4", "FromDeriveInput", [f("v", default="trait")], ["cfg_a"], forward=[], magic=["attrs", "ident"]),
+        elem_desc("D5", "FromField", [f("keepers", multiple=True)], ["one", "two", "three"], forward=["keep"], magic=["attrs", "vis"], allow_unknown=True),
     ]
 
 
